@@ -128,16 +128,6 @@ pub fn check_image<H: HashAlgorithm>(e: &mut Exec<'_, H>, img: &ImageRec, snap: 
                 if ok != Some(true) { return Err(v(prop, "image-proof", format!("{what}: proof for {} does not verify / confirm the {name} state", hex(k)), img.step)); }
             }
         }
-        // C16 on the recovered image: the files decode to exactly the chosen state
-        {
-            let dimg = crate::decoder::decode(&img.path).map_err(|err| v("C16", "decode-failed", format!("{what}: after recovery: {err}"), img.step))?;
-            let trie = ref_trie::<H>(want, &mut e.hc);
-            let hc = &mut e.hc;
-            let ex = crate::decoder::Expect { state: want, trie: &trie, hc_vh: &mut |k, x| hc.vh::<H>(k, x), seqn: want_seqn };
-            crate::decoder::check_image::<H>(&dimg, ex).map_err(|(class, d)| v("C16", &class, format!("{what}: after recovery: {d}"), img.step))?;
-            crate::decoder::check_accounting(&dimg).map_err(|(class, d)| v("C19", &class, format!("{what}: after recovery: {d}"), img.step))?;
-            e.rep.lock().unwrap().decodes += 1;
-        }
         // a recovered store must itself reopen transparently: close it and open it again (what
         // recovery kept only in memory shows up here), then re-check root, sync_seqn and values
         drop(nomt);
@@ -150,6 +140,16 @@ pub fn check_image<H: HashAlgorithm>(e: &mut Exec<'_, H>, img: &ImageRec, snap: 
             let got = nomt.read(*k).map_err(|err| v(prop, "image-read-error", format!("{what}: read({}) failed: {err:#}", hex(k)), img.step))?;
             let w = want.get(k).map(|x| value_bytes(k, *x));
             if got != w { return Err(v(prop, "image-second-open-differs", format!("{what}: after a clean close and a second open read({}) = {}, {name} state has {}", hex(k), dv(&got), dv(&w)), img.step)); }
+        }
+        // C16 on the recovered image: the files decode to exactly the chosen state
+        {
+            let dimg = crate::decoder::decode(&img.path).map_err(|err| v("C16", "decode-failed", format!("{what}: after recovery: {err}"), img.step))?;
+            let trie = ref_trie::<H>(want, &mut e.hc);
+            let hc = &mut e.hc;
+            let ex = crate::decoder::Expect { state: want, trie: &trie, hc_vh: &mut |k, x| hc.vh::<H>(k, x), seqn: want_seqn };
+            crate::decoder::check_image::<H>(&dimg, ex).map_err(|(class, d)| v("C16", &class, format!("{what}: after recovery: {d}"), img.step))?;
+            crate::decoder::check_accounting(&dimg).map_err(|(class, d)| v("C19", &class, format!("{what}: after recovery: {d}"), img.step))?;
+            e.rep.lock().unwrap().decodes += 1;
         }
         // the reopened store accepts a further commit that behaves as in the model
         {
